@@ -121,6 +121,12 @@ Print Assumptions grid_type_kept.
 Theorem mulgrid_write_idem_partial : forall g, wf g = true -> idem_ok g = true -> write (canon g) = write g.
 Proof. exact write_canon_idem. Qed.
 Print Assumptions mulgrid_write_idem_partial.
+(** ... and the hypothesis cannot simply be dropped: with a layer whose centre prints as 0.00
+    the reader re-derives the centre from the printed bottoms and the second file differs
+    (recorded finding write:layer-centre-prints-zero, reproduced on the implementation) *)
+Theorem mulgrid_write_idem_refuted : exists g, wf g = true /\ nwf g = true /\ write (canon g) <> write g.
+Proof. exact write_idem_refuted. Qed.
+Print Assumptions mulgrid_write_idem_refuted.
 Theorem feet_roundtrip : forall g b, wf g = true -> h_unit (g_hdr g) = feet ->
   str_eqb (h_type (canon_header (g_hdr g))) (s2l supported_type) = true -> write g = Ok b ->
   (exists hl, b = file_of_lines (hl :: body_lines feet_scale g)) /\
